@@ -948,7 +948,7 @@ class PPG3204():
         
         if (offset < self.OFFSET_MIN).any() or (offset > self.OFFSET_MAX).any():
             offset = offset.clip(self.OFFSET_MIN, self.OFFSET_MAX)
-            msg = f'The offset is out of the range of the PPG3204. Setting to the limits {offset:.2f}.'
+            msg = f'The offset is out of the range of the PPG3204. Setting to the limits {offset}.'
             warnings.warn(msg)
 
         for ch, off in zip(CHs, offset):
